@@ -6,8 +6,8 @@ import (
 	"github.com/dcaiafa/lox/verifharness/lib/loxb"
 )
 
-// recoverPort is a line-by-line port of the generated parse()/_recover() of
-// the tree this harness was written against, driven by lox's in-process table.
+// recoverPort is a line-by-line port of the generated parse()/_recover() (as of
+// fix 3ebfc56: reductions simulated on a virtual stack), driven by lox's in-process table.
 // It is NOT an oracle (that would compare the implementation with a copy of
 // itself). Its only use is to attribute an already detected blame failure to
 // the listed known finding "bottom-up delivery order": the port says in which
@@ -101,18 +101,35 @@ func recoverPort(lx *loxb.Lox, p *cfgm.Plain, w []int) (res portResult) {
 			found := errTok
 			for len(stack) >= 1 {
 				state := stack[len(stack)-1].st
+				// the reductions made on ERROR before it can be shifted, on a virtual stack
+				var sim []*lr1.ItemSet
+				popped := 0
 				for {
 					a, ok := find(state, errT)
 					if !ok {
 						break
 					}
 					if a.Type == lr1.ActionReduce {
-						// the runtime does `state, _ = _Find(_goto, state, rule)`: a missing entry yields state 0
-						if nx := loxb.GotoOf(t, state, a.Prods[0].Rule); nx != nil {
-							state = nx
-						} else {
-							state = t.States[0]
+						for n := len(a.Prods[0].Terms); n > 0; n-- {
+							if len(sim) > 0 {
+								sim = sim[:len(sim)-1]
+							} else {
+								popped++
+							}
 						}
+						if len(sim) > 0 {
+							state = sim[len(sim)-1]
+						} else if popped < len(stack) {
+							state = stack[len(stack)-1-popped].st
+						} else {
+							break
+						}
+						nx := loxb.GotoOf(t, state, a.Prods[0].Rule)
+						if nx == nil {
+							break
+						}
+						state = nx
+						sim = append(sim, state)
 						continue
 					}
 					if a.Type != lr1.ActionShift {
